@@ -18,6 +18,9 @@ import (
 )
 
 // case ids of this package start here (one runner evidence table for all packages)
+// directory of this package inside the repository (race signatures are made relative to the repository root)
+const vC18PkgDir = ""
+
 const vC18IDBase = 0
 
 var vC18Plan = []vC18Scen{
